@@ -343,6 +343,10 @@ func debugCases(eng *engine, vars []envVar, vals map[string]*val.Val, src, tag s
 	if strings.Contains(src, "\n") {
 		return nil
 	}
+	if guardBegin("debug " + src) {
+		return []Case{crashCase("debug " + src)}
+	}
+	defer guardEnd()
 	parsed, perr := parseSrc(src)
 	if perr != nil {
 		return []Case{{Human: "debug " + src, Want: "syntax-error", Tags: []string{"dbg:syntax-error", tag}}}
